@@ -50,7 +50,7 @@ def gen_diamond(rng):
     a = lambda: rng.choice(TAG_ATOMS)
     saved = {"alt": "# W %s | %s\n" % (a(), " ".join(a() for _ in range(rng.randint(1, 2)))),
              "left": "# W %s\n" % rng.choice(["%s {alt}" % a(), "{alt} %s" % a(), "{alt}"]),
-             "right": "# S note W %s O priority\n" % rng.choice(["%s {alt}" % a(), "{alt} %s" % a()]),
+             "right": "# S note W %s %s\n" % (rng.choice(["%s {alt}" % a(), "{alt} %s" % a()]), rng.choice(["O priority", "G file O priority"])),
              "top": "# W {left} {right}\n"}
     body = rng.choice(["{left} {right}", "{right} {left}", "{top}", "{alt} {left}", "%s {left} {right}" % a(), "{top} %s" % a()])
     return {"saved": saved, "q": "S note W %s O none G none" % body}
@@ -66,7 +66,8 @@ def gen_case(rng):
         later = names[i + 1:]
         clause = gen_clause(rng, later, 0)
         sel = rng.choice(["", "S note ", "S count(note) "])
-        tail = rng.choice(["", " O priority", " G file", " O create G none", " G priority file"])
+        # both clause orders the grammar allows: O before G and G before O
+        tail = rng.choice(["", " O priority", " G file", " O create G none", " G priority file", " G file O priority", " G none O alpha create"])
         saved[nm] = "# %sW %s%s\n#\n# SAVED QUERY\n" % (sel, clause, tail)
     surround = " ".join(rng.choice(ATOMS) for _ in range(rng.randint(0, 2)))
     ref = rng.choice(names)
